@@ -567,19 +567,27 @@ func r11plmn(c *core.Ctx) {
 	const R = "R11.plmn"
 	c.Rule(R, "announced PLMN = octets 1..3 of EncodeSuci(IMSI, len(mnc)); stored in TestPlmn and the NG Setup PLMN fields; emulator-path builders read TestPlmn")
 	fn := mustFunc(c, pStg, "ManageNGSetup")
-	p := core.NewPather(fn)
-	gs := core.CallsTo(fn, pTglib+".GetNGSetupRequest")
-	if len(gs) != 1 {
-		c.Fail(R, "stgutg.ManageNGSetup:GetNGSetupRequest", fn.Pos(), "expected one GetNGSetupRequest call")
-		return
+	if x := driverModelX(c, fn); xUsable(c, x) {
+		r11plmnNGX(c, R, x)
+	} else {
+		p := core.NewPather(fn)
+		gs := core.CallsTo(fn, pTglib+".GetNGSetupRequest")
+		if len(gs) != 1 {
+			c.Fail(R, "stgutg.ManageNGSetup:GetNGSetupRequest", fn.Pos(), "expected one GetNGSetupRequest call")
+			return
+		}
+		plmn := p.Path(gs[0].Common().Args[1])
+		pre := "call:" + pStg + ".EncodeSuci("
+		ok := strings.HasPrefix(plmn, pre) && strings.HasSuffix(plmn, ",call:builtin.len(p3)).Buffer[1:4]") && strings.Contains(plmn, "p2")
+		c.Check(ok, R, "stgutg.ManageNGSetup:plmn-from-suci", gs[0].Pos(), "EncodeSuci(imsi, len(mnc)).Buffer[1:4]", "the announced PLMN must be octets 1..3 of EncodeSuci(IMSI, len(mnc)); is %s", clip(plmn))
 	}
-	plmn := p.Path(gs[0].Common().Args[1])
-	pre := "call:" + pStg + ".EncodeSuci("
-	ok := strings.HasPrefix(plmn, pre) && strings.HasSuffix(plmn, ",call:builtin.len(p3)).Buffer[1:4]") && strings.Contains(plmn, "p2")
-	c.Check(ok, R, "stgutg.ManageNGSetup:plmn-from-suci", gs[0].Pos(), "EncodeSuci(imsi, len(mnc)).Buffer[1:4]", "the announced PLMN must be octets 1..3 of EncodeSuci(IMSI, len(mnc)); is %s", clip(plmn))
 	// RegisterUE / DeregisterUE use the same encoder with len(mnc)
 	for _, name := range []string{"RegisterUE", "DeregisterUE"} {
 		f := mustFunc(c, pStg, name)
+		if x := driverModelX(c, f); xUsable(c, x) {
+			r11plmnUEX(c, R, x, name)
+			continue
+		}
 		fp := core.NewPather(f)
 		es := core.CallsTo(f, pStg+".EncodeSuci")
 		okE := len(es) == 1
